@@ -483,6 +483,12 @@ def selftest():
     hit = r["violated"] == "NoViolation"
     ok &= hit
     print("%-34s -> %s (%s)" % ("Pie.tla with defect F2 modelled", "VIOLATION FOUND" if hit else "MISSED", r.get("viol")))
+    # vacuity: the retry configuration really runs builds in a session that already aborted
+    r = run_mc("abort_retry_2t1r", timeout=600, extra_inv="NoRetryWitness")
+    hit = r["violated"] == "NoRetryWitness"
+    ok &= hit
+    print("%-34s -> %s" % ("retry after abort explored (Retry)", "WITNESS REACHED" if hit else "NEVER REACHED"))
+    # same-session retry with the retry's defect modelled is out of reach of a constant; binding: seeded change C19H (DESIGN.md section 12)
     r = run_dagpk(4, 7, [1, 2], reinsert=True, tag="self")
     hit = r["violated"] == "C11_Order"
     ok &= hit
